@@ -35,7 +35,7 @@ def run_coll(ctx, traces, ops, profile, oracle_props=None, seed_offset=0, label=
     env = dict(os.environ, VERIF_SEED=str(ctx.seed + seed_offset))
     label = label or profile
     replay_cmd = f"VERIF_SEED={ctx.seed + seed_offset} {exe} {traces} {ops} {profile}"
-    p = subprocess.run([exe, str(traces), str(ops), profile], capture_output=True, text=True, env=env, timeout=7200)
+    p = run_harness([exe, str(traces), str(ops), profile], env, ctx)
     if p.returncode != 0:
         ctx.add_ob(f"run:coll-{label}", "build", False, f"rc={p.returncode}\n{p.stderr[-2000:]}\n{p.stdout[-1500:]}")
         ctx.oracle_failures.append({"engine": "coll", "profile": profile, "property": ctx.prop,
